@@ -104,7 +104,9 @@ def main(argv=None) -> int:
             case = w.get("case")
             if not case or "k" not in case:
                 continue
-            fn = mod.KINDS[case["k"]]
+            fn = mod.KINDS.get(case["k"])
+            if fn is None:          # annotation-only witness: reproduced by re-executing the recorded workload below
+                continue
             import inspect
             sig = inspect.signature(fn)
             accepts_any = any(p_.kind is inspect.Parameter.VAR_KEYWORD for p_ in sig.parameters.values())
